@@ -376,6 +376,33 @@ func c08PeriodicSweeps(t *testing.T, r *Rec) {
 	if !equal("setup") {
 		return
 	}
+	// the one handler that reads the environment: every size and level of status update must give the
+	// same transaction result on the twin with the feature flag and on the twin without it
+	for _, n := range []int{0, 1, 16, 17, 40, 300} {
+		for _, lvl := range []int32{0, 1, 2, 3, -1} {
+			var codes [2]string
+			for i, fa := range tw {
+				c08SetEnv(i == 1)
+				v := fa.ValidatorOperator(0)
+				m := &palomatypes.MsgAddStatusUpdate{Status: "relayed", Level: palomatypes.MsgAddStatusUpdate_Level(lvl), Metadata: FAMeta(v.Addr, v.Addr)}
+				for k := 0; k < n; k++ {
+					m.Args = append(m.Args, palomatypes.MsgAddStatusUpdate_KeyValuePair{Key: fmt.Sprintf("k%d", k), Value: "v"})
+				}
+				res := fa.DeliverTx(v, m)
+				codes[i] = fmt.Sprintf("%s/%d/%v", res.Codespace, res.Code, res.Panicked)
+			}
+			r.Stat("sweeps.status_update")
+			if codes[0] != codes[1] {
+				r.Hit("twin_execution_equal", fmt.Sprintf("MsgAddStatusUpdate with %d args, level %d: result %s without PALOMA_FF_PIGEON_STATUS_UPDATE, %s with it", n, lvl, codes[0], codes[1]),
+					map[string]interface{}{"scenario": "c08PeriodicSweeps/status-update", "args": n, "level": lvl, "env_on_twin_b": c08EnvVars})
+				r.Op(fmt.Sprintf("block %d 1", tw[0].Height()), "diverged")
+				return
+			}
+			if !equal(fmt.Sprintf("status update %d/%d", n, lvl)) {
+				return
+			}
+		}
+	}
 	for _, target := range []int64{100, 200, 299, 300, 301, 302, 303, 304, 310} {
 		for i, fa := range tw {
 			c08SetEnv(i == 1)
